@@ -3,16 +3,16 @@ import json
 import vlib
 
 CFG = '''SPECIFICATION Spec
-CONSTANTS Engine = "%(engine)s" MaxRuns = %(runs)d MaxRetries = %(retries)d AllowFail = %(fail)s SerializeStarts = %(ser)s
-INVARIANTS OneLiveRun PublishedIsLive StopHitsLive NoOrphan StatusAgrees %(extra)s
+CONSTANTS Engine = "%(engine)s" MaxRuns = %(runs)d MaxRetries = %(retries)d AllowFail = %(fail)s SerializeStarts = %(ser)s RecordBeforeDone = %(rbd)s
+INVARIANTS OneLiveRun PublishedIsLive StopHitsLive NoOrphan StatusAgrees NoPhantomStop %(extra)s
 VIEW View
 CHECK_DEADLOCK FALSE
 '''
 
 
-def cfg(engine="v1", runs=3, retries=1, fail=True, scripts=False, serialize=True):
+def cfg(engine="v1", runs=3, retries=1, fail=True, scripts=False, serialize=True, record_before_done=True):
     return CFG % {"engine": engine, "runs": runs, "retries": retries, "fail": "TRUE" if fail else "FALSE",
-                  "ser": "TRUE" if serialize else "FALSE",
+                  "ser": "TRUE" if serialize else "FALSE", "rbd": "TRUE" if record_before_done else "FALSE",
                   "extra": "EmitScript" if scripts else ""}
 
 
@@ -37,7 +37,7 @@ def run_design(chk, quick, unserialized=False):
             note = " - MODEL COUNTEREXAMPLE for %s (conformance decides)" % r["violated"]
             vlib.log("Lifecycle (%s): TLC refutes %s on the model; conformance replay decides" % (engine, r["violated"]))
         chk.add_design(r, "Lifecycle (%s service, delete semantics %s): publication protocol incl. failure/recovery - "
-                          "OneLiveRun, PublishedIsLive, StopHitsLive, NoOrphan, StatusAgrees%s" % (engine, sem, note))
+                          "OneLiveRun, PublishedIsLive, StopHitsLive, NoOrphan, StatusAgrees, NoPhantomStop%s" % (engine, sem, note))
 
 
     if unserialized:
@@ -51,6 +51,20 @@ def run_design(chk, quick, unserialized=False):
         chk.add_design(r, "Lifecycle with SerializeStarts=FALSE (recovery's internal Start may overlap a user Start, as "
                           "in the code): TLC %s - design-level counterpart of known finding F13" %
                        ("refutes " + r["violated"] if r["violated"] else "finds no violation"))
+
+
+def run_design_late_record(chk):
+    """the v1 engine before fix F32: a failing node counted itself done before its error was recorded.  TLC refutes
+    NoPhantomStop - the design-level counterpart of F32; the fail-late-bookkeeping family of C10 is the same window on the
+    real services (scheduling point lifecycle.node-done:<node>)."""
+    r = vlib.tlc_run("Lifecycle", cfg("v1", 3, 1, True, record_before_done=False), FILES(), name="Lifecycle-late-record",
+                     timeout=1800)
+    if r["error"]:
+        raise vlib.Infra("TLC error in Lifecycle (late record): %s" % r["error"])
+    if r["violated"] != "NoPhantomStop":
+        raise vlib.Infra("Lifecycle.tla with RecordBeforeDone=FALSE should refute NoPhantomStop, got %r" % r["violated"])
+    chk.add_design(r, "Lifecycle with RecordBeforeDone=FALSE (the v1 engine before fix F32): TLC refutes NoPhantomStop, "
+                      "as intended")
 
 
 def schedules(engine, num, seed, runs=3, retries=1):
